@@ -170,8 +170,16 @@ LINKS = (
     + r"\["
     + MAGIC_NOWIKI_CHAR
     + r"?\[("
-    + r"(((?!\]\])[^[\|\n])*((?!\[\[)[^]\n])+)"
-    + r"(\|(((?!\]\])[^[])*((?!\[\[)[^]])+))?"  # after pipe no newlines, optnl.
+    # The same language as the two-quantifier form described below
+    # (`X*Y+` where X excludes `[` and `]]`, Y excludes `]` and `[[`), written
+    # so that each text is matched in one way only: first everything up to
+    # the last single `]`, then the rest.  With `X*Y+` the characters both
+    # classes accept could be split between X and Y at every position, and an
+    # unclosed `[[` followed by text without brackets was retried in about
+    # (length)**4 ways.
+    + r"(?:[^][|\n]*\](?!\]))*(?:[^][\n]|\[(?!\[))+"
+    + r"(?:\|(?:[^][]*\](?!\]))*(?:[^][]|\[(?!\[))+)?"  # after the pipe
+    # newlines are allowed
     + r")\]"
     + MAGIC_NOWIKI_CHAR
     + r"?\]"
